@@ -220,6 +220,12 @@ for w in (10, 11, 12):
     add_enum([("named", wide(w))])
     add_enum([("tuple", [ENT] + wide(w - 2) + [ENT]), ("tuple", wide(w))])
 add_enum([("named", [FW1, ENT]), ("named", [FW3, FW2])])
+# a conversion-skipping field in every position of a tuple variant, next to converted fields of
+# the same type (tuple variants are positional: each value must come back in its own slot)
+add_enum([("tuple", [SKU, U32]), ("unit", [])])
+add_enum([("tuple", [U32, SKU])])
+add_enum([("tuple", [SKU, ENT, U32]), ("tuple", [ENT, SKU, U32])])
+add_enum([("named", [SKU, U32]), ("tuple", [SKU, SKU, U32])])
 add_enum([("tuple", [GEN_E]), ("named", [GEN_E, U32]), ("unit", [])])
 add_enum([("tuple", [GEN_U, GEN_U]), ("unit", [])])
 
